@@ -237,6 +237,16 @@ func compileCheckMain(args []string) int {
 		}
 	}
 	const batch = 200
+	// once a few sources are confirmed not to return, the verdict is in: the
+	// rest of the scope is not worth minutes of waiting per source
+	stopAfterHangs := 4
+	single := NewPool(*workers, 6*time.Second)
+	defer single.Close()
+	hangs := func() int {
+		mu.Lock()
+		defer mu.Unlock()
+		return perSig["hang"] + perSig["crash"]
+	}
 	sem := make(chan struct{}, *workers)
 	var wg sync.WaitGroup
 	for i := 0; i < len(items); i += batch {
@@ -249,6 +259,12 @@ func compileCheckMain(args []string) int {
 		go func(chunk []item) {
 			defer wg.Done()
 			defer func() { <-sem }()
+			if hangs() >= stopAfterHangs {
+				mu.Lock()
+				rep.OtherDiffs["skipped_after_confirmed_hangs"] += len(chunk)
+				mu.Unlock()
+				return
+			}
 			srcs := make([]any, len(chunk))
 			for k, it := range chunk {
 				srcs[k] = it.src
@@ -268,9 +284,15 @@ func compileCheckMain(args []string) int {
 			}
 			// a source in this batch hangs or kills the worker: isolate it
 			for _, it := range chunk {
-				r1 := pool.Do(&Req{Op: "compile", Arg: Node{"srcs": []any{it.src}, "probe": true}})
+				if hangs() >= stopAfterHangs {
+					mu.Lock()
+					rep.OtherDiffs["skipped_after_confirmed_hangs"]++
+					mu.Unlock()
+					continue
+				}
+				r1 := single.Do(&Req{Op: "compile", Arg: Node{"srcs": []any{it.src}, "probe": true}})
 				if r1.Crash != "" {
-					// confirm once more alone with a fresh worker before calling it
+					// confirm once more alone with a fresh worker and a generous limit before calling it
 					r2 := pool.Do(&Req{Op: "compile", Arg: Node{"srcs": []any{it.src}, "probe": false}})
 					if r2.Crash != "" {
 						kind := "crash"
